@@ -190,6 +190,15 @@ def stepD (cfg : Cfg) (acc : DAcc) (op : DOp) (res : DRes) (rowsAfter : Store) :
           -- C02 oracle: the address told to the client lies in the set the configuration assigns to it
           -- (innermost matching policy's set, else the default pools; `C02_policy_sets_its_addresses`)
           let acc := if pool.contains x then acc else { acc with spec := acc.spec ++ ["unsat:C02.yiaddr_in_allowed:outside-assigned-set"] }
+          -- C09 oracle: a client naming (ciaddr, else option 50) an address it holds unexpired, inside the set assigned
+          -- to it, is told that address and no other
+          let named := if isReq && pkt.ciaddr != 0 then some pkt.ciaddr else optIp pkt.options 50
+          let acc := match named with
+            | some a =>
+              if pool.contains a && x != a &&
+                 acc.implRows.any (fun r => r.addr == a && r.client == clientId pkt && r.expiry > acc.now)
+              then { acc with spec := acc.spec ++ ["unsat:C09.keeps_named_own_lease:told-a-different-address"] } else acc
+            | none => acc
           -- candidates: allowed outcomes on x; pick the one reproducing the implementation's table
           let cands := (allowed acc.rows acc.now c rq pool).filterMap fun o =>
             match o with
